@@ -7,6 +7,8 @@
 -/
 import Gotree.Lemmas.C05Cli
 import Gotree.Lemmas.C05RemoveAny
+import Gotree.Lemmas.C05StrictRm
+import Gotree.Lemmas.C05Keys
 import Gotree.Lemmas.C05OrientPath
 
 /- The property theorems live in `Gotree.C05.P` (the shared lemma file already uses the
@@ -328,6 +330,78 @@ theorem outgroup_strict_refuses (t : T) (S : List String)
   intro t' h
   have := outgroup_strict_side t t' S h ((uniq_iff t).1 hu) ((lensOK_iff t).1 hl) ((supsOK_iff t).1 hs)
   rw [this] at hns; cases hns
+
+/-- the same with the outgroup removed (`-r`): a strict success means the outgroup is one side of a
+    split, and what was removed is exactly the outgroup -/
+theorem outgroup_strict_refuses_removing (t t' : T) (S : List String)
+    (hu : uniq t = true) (hl : lensOK t = true) (hs : supsOK t = true)
+    (h : rerootOutGroup true true S t = .ok t') :
+    isSide t S = true ∧ (t.tipNames.filter (fun x => !t'.tipNames.contains x)).Perm (outTips t S) :=
+  outgroup_strict_side_rm t t' S h ((uniq_iff t).1 hu) ((lensOK_iff t).1 hl) ((supsOK_iff t).1 hs)
+
+/-- a non-side outgroup on a tree satisfying the hypotheses: `{D, C}` in `exT` (that `isSide exT ["D","C"]` is
+    `false` follows from the refusal, by `outgroup_strict_refuses_removing` / `outgroup_strict_side`; it is
+    not evaluated in the kernel because `usplitsAll` sorts with `mergeSort`) -/
+example : (rerootOutGroup false true ["D", "C"] exT).cls = "err" ∧ (rerootOutGroup true true ["D", "C"] exT).cls = "err" ∧
+    (rerootOutGroup false false ["D", "C"] exT).cls = "ok" := by decide +kernel
+
+/-! ### Non-strict mode: when is the rooting refused?  (deviation from the statement)
+
+The statement reads "an outgroup that is not monophyletic is refused in strict mode and otherwise ends
+up inside one root clade".  `outgroup_nonstrict_inside` proves the second half for every SUCCESSFUL
+rooting.  Success itself is not guaranteed: the code — and the model — refuse in non-strict mode when the
+common ancestor of the outgroup (seen from the first tip outside it) has several branches without
+outgroup tips (finding OutgroupNonStrictMultifurcationRefused, tree/algo.go `len(n.br)-len(edges) != 1`).
+The full statement one would like,
+
+    uniq t → noSingle t → ¬dupNodeNames t → outTips t S ≠ [] → ¬ all tips named →
+      ∃ t', rerootOutGroup false false S t = .ok t'
+
+is FALSE for the code as it is (`outgroup_nonstrict_polytomy_refused` below); what holds is the list of
+causes of a refusal: -/
+
+/-- `outgroup_nonstrict_refusals_partial`: in non-strict mode the model refuses only for one of these
+    causes: two nodes with the same name; no given name is a tip; every tip is named (no tip is left to
+    start from); a tree of two nodes; the ancestor of the outgroup is a multifurcation (the deviation);
+    with removal, fewer than two branches at the node that remains. -/
+theorem outgroup_nonstrict_refusals_partial (rm : Bool) (t : T) (S : List String) (m : String)
+    (h : rerootOutGroup rm false S t = .err m) :
+    m = "dupnames" ∨ (m = "none" ∧ effOutgroup (unroot t) S = []) ∨
+    (m = "all" ∧ tempRootNeighbour (unroot t) (effOutgroup (unroot t) S) = none) ∨ m = "no common ancestor" ∨
+    (m = "multifurcated" ∧ effOutgroup (unroot t) S ≠ []) ∨ (m = "roottip" ∧ rm = true) :=
+  outgroup_err_nonstrict h
+
+/-- `(a:1,b:1,c:1,d:1);` -/
+def starT : T :=
+  .node ⟨"", []⟩ 0 [(mkE 1 NIL 0, T.leaf "a"), (mkE 1 NIL 1, T.leaf "b"), (mkE 1 NIL 2, T.leaf "c"), (mkE 1 NIL 3, T.leaf "d")]
+
+/-- `(a:1,b:1,c:1,(d:1,e:1):1);` -/
+def star2T : T :=
+  .node ⟨"", []⟩ 0 [(mkE 1 NIL 0, T.leaf "a"), (mkE 1 NIL 1, T.leaf "b"), (mkE 1 NIL 2, T.leaf "c"),
+    (mkE 1 NIL 3, .node ⟨"", []⟩ 0 [(mkE 1 NIL 4, T.leaf "d"), (mkE 1 NIL 5, T.leaf "e")])]
+
+def errIs (r : Res T) (m : String) : Bool := match r with | .err m' => m' == m | _ => false
+
+/-- the deviation, on the model: non-strict rooting on `{a, b}` is refused on both trees ("multifurcated"),
+    while `{D, C}` in `exT` — not a side either, but its ancestor has one free branch only — is accepted -/
+theorem outgroup_nonstrict_polytomy_refused :
+    errIs (rerootOutGroup false false ["a", "b"] starT) "multifurcated" = true ∧
+    errIs (rerootOutGroup false false ["a", "b"] star2T) "multifurcated" = true ∧
+    errIs (rerootOutGroup true false ["a", "b"] star2T) "multifurcated" = true ∧
+    (rerootOutGroup false false ["D", "C"] exT).cls = "ok" ∧
+    uniq starT = true ∧ starT.noSingle = true := by decide +kernel
+
+/-! ### the hypothesis `keysOK` from the names alone -/
+
+/-- `keysOK_of_plainNames`: when every tip name is non-empty and free of ',' the printing by which the
+    split list is sorted tells the sides apart — the hypothesis `keysOK` of the literal-equality theorems
+    (`ops_preserved`, `outgroup_clade_oracle`, `outgroup_removed`) holds.  (`keysOK` itself cannot be
+    evaluated in the kernel, `plainNames` can.) -/
+theorem keysOK_of_plainNames (t : T) (h : plainNames t = true) : keysOK t = true :=
+  Gotree.C05.keysOK_of_plainNames t h
+
+example : plainNames exT = true ∧ keysOK exT = true :=
+  ⟨by decide +kernel, Gotree.C05.keysOK_of_plainNames exT (by decide +kernel)⟩
 
 /-- `outgroup_nonstrict_inside`: in non-strict mode a successful rooting — monophyletic
     outgroup or not — leaves the whole outgroup inside one of the two root clades, the root
